@@ -200,15 +200,9 @@ theorem fkBeforeDelete_ok {s s' : State} {ents : Map Id EntA} {id : Id} {e : Ent
     (h : fkBeforeDelete (e.owner.getD []) id s = .ok s') :
     BR (ents.erase id) s'.thg ∧ ThgFrame s s' ∧ ThgDom s' := by
   unfold fkBeforeDelete at h
-  by_cases hn : e.owner.getD [] = []
-  · simp only [hn, ne_eq, not_true_eq_false, if_false, pure, Except.pure] at h
-    cases h
-    refine ⟨?_, rfl, hd⟩
-    intro b j
-    have := hbr b j
-    simp only [Map.lookup_erase]
-    grind
-  · simp only [ne_eq, hn, not_false_eq_true, if_true] at h
+  split at h
+  · next hc =>
+    obtain ⟨hn, _⟩ := hc
     obtain ⟨hb, rfl⟩ := backrefDel_eq h
     refine ⟨?_, rfl, ?_⟩
     · intro b j
@@ -220,7 +214,25 @@ theorem fkBeforeDelete_ok {s s' : State} {ents : Map Id EntA} {id : Id} {e : Ent
     · intro b l; simp only [Map.lookup_insert]; split
       · next hb' => subst hb'; intro _; exact hb
       · exact hd b l
-
+  · next hc =>
+    simp only [pure, Except.pure] at h
+    cases h
+    -- the target is empty, or it is gone: then it has no back-reference bucket, so the entity is no referrer
+    have hn : e.owner.getD [] = [] := by
+      by_cases hz : e.owner.getD [] = []
+      · exact hz
+      · exfalso
+        have hmem := (hbr (e.owner.getD []) id).2 ⟨hz, e, hold, rfl⟩
+        cases hl : s.thg.lookup (e.owner.getD []) with
+        | none => simp [hl] at hmem
+        | some l =>
+          have := hd _ l hl
+          exact hc ⟨hz, by simpa [State.bEx] using this⟩
+    refine ⟨?_, rfl, hd⟩
+    intro b j
+    have := hbr b j
+    simp only [Map.lookup_erase]
+    grind
 
 theorem UI_insert_fresh_empty {E : Type} {f : E → Bytes} {ents : Map Id E} {idx : Map Bytes Id} {id : Id} {e : E}
     (h : UI f ents idx) (hf : ents.lookup id = none) (he : f e = []) : UI f (ents.insert id e) idx := by
@@ -318,7 +330,7 @@ theorem beforeDeleteA_ok {s s' : State} {id : Id} (h : beforeDeleteA s id = .ok 
 theorem ThgFrame.fields {s s' : State} (h : ThgFrame s s') :
     s'.hasA = s.hasA ∧ s'.hasB = s.hasB ∧ s'.a = s.a ∧ s'.b = s.b ∧ s'.g = s.g ∧ s'.p = s.p ∧ s'.rc = s.rc ∧
     s'.uName = s.uName ∧ s'.uAlias = s.uAlias ∧ s'.uCode = s.uCode ∧ s'.uLabel = s.uLabel ∧ s'.sRoles = s.sRoles ∧
-    s'.uColour = s.uColour := by
+    s'.uColour = s.uColour ∧ s'.pe = s.pe ∧ s'.mt = s.mt := by
   unfold ThgFrame at h; rw [h]; simp
 
 theorem uniqueBeforeDelete_absent {E : Type} {f : E → Bytes} {ents : Map Id E} {idx : Map Bytes Id} {v : Bytes}
@@ -365,11 +377,8 @@ theorem fkBeforeDelete_absent {s s' : State} {ents : Map Id EntA} {id : Id} {v :
     (hbr : BR ents s.thg) (hd : ThgDom s) (hno : ents.lookup id = none)
     (h : fkBeforeDelete v id s = .ok s') : BR ents s'.thg ∧ ThgFrame s s' ∧ ThgDom s' := by
   unfold fkBeforeDelete at h
-  by_cases hn : v = []
-  · simp only [hn, ne_eq, not_true_eq_false, if_false, pure, Except.pure] at h
-    cases h; exact ⟨hbr, rfl, hd⟩
-  · simp only [ne_eq, hn, not_false_eq_true, if_true] at h
-    obtain ⟨hb, rfl⟩ := backrefDel_eq h
+  split at h
+  · obtain ⟨hb, rfl⟩ := backrefDel_eq h
     refine ⟨?_, rfl, ?_⟩
     · intro b j
       have := hbr b j
@@ -388,6 +397,8 @@ theorem fkBeforeDelete_absent {s s' : State} {ents : Map Id EntA} {id : Id} {v :
     · intro b l; simp only [Map.lookup_insert]; split
       · next hb' => subst hb'; intro _; exact hb
       · exact hd b l
+  · simp only [pure, Except.pure] at h
+    cases h; exact ⟨hbr, rfl, hd⟩
 
 /-- the index part of the invariant, relative to an entity table -/
 structure IdxInv (ents : Map Id EntA) (s : State) : Prop where
@@ -453,7 +464,7 @@ theorem other_names_differ {E : Type} {f : E → Bytes} {ents : Map Id E} {idx :
 
 theorem BDFrame.fields {s s' : State} (h : BDFrame s s') :
     s'.hasA = s.hasA ∧ s'.hasB = s.hasB ∧ s'.a = s.a ∧ s'.b = s.b ∧ s'.g = s.g ∧ s'.p = s.p ∧ s'.rc = s.rc ∧
-    s'.uCode = s.uCode ∧ s'.uLabel = s.uLabel ∧ s'.uColour = s.uColour := by
+    s'.uCode = s.uCode ∧ s'.uLabel = s.uLabel ∧ s'.uColour = s.uColour ∧ s'.pe = s.pe ∧ s'.mt = s.mt := by
   unfold BDFrame at h; rw [h]; simp
 
 
@@ -482,6 +493,9 @@ structure InvCore (s : State) : Prop where
   hasB : ∀ j e, s.b.lookup j = some e → s.hasB = true
   /-- the extended child store's own unique index -/
   uColour : UI (fun e => e.colour.getD []) s.a s.uColour
+  /-- store A linked with itself: through one symbol, through two symbols -/
+  pe : SelfInv s.pe s.aEx
+  mt : LinkInv s.mt s.aEx s.aEx
 
 /-- the self reference `boss` names an existing entity — except for the entities whose cascading
     delete is in progress (`busy`): the boss of such an entity may already be gone (cycles) -/
@@ -493,7 +507,7 @@ structure Inv (s : State) : Prop extends InvCore s where
   boss : BossOK [] s
 
 theorem inv_empty : Inv State.empty := by
-  refine ⟨⟨?_, ?_, ?_, ?_, ?_, ?_, ?_, ?_, ?_, LinkInv.empty _ _, LinkInv.empty _ _, RcInv.empty _ _, ?_, ?_, ?_, ?_, ?_, ?_, ?_, ?_⟩, ?_, ?_⟩ <;>
+  refine ⟨⟨?_, ?_, ?_, ?_, ?_, ?_, ?_, ?_, ?_, LinkInv.empty _ _, LinkInv.empty _ _, RcInv.empty _ _, ?_, ?_, ?_, ?_, ?_, ?_, ?_, ?_, SelfInv.empty _, LinkInv.empty _ _⟩, ?_, ?_⟩ <;>
     simp [State.empty, UI, SI, NEK, BR, ThgDom, BossOK]
 
 theorem aEx_congr {s s' : State} (h : s'.a = s.a) : s'.aEx = s.aEx := by funext j; simp [State.aEx, h]
@@ -524,10 +538,15 @@ theorem core_assemble {s s' : State} {id : Id} {e : EntA} (hi : InvCore s)
     (hdep : e.dep.getD [] ≠ [] → s.bEx (e.dep.getD []) = true)
     (hg : LinkInv s'.g s'.aEx s'.bEx) (hp : LinkInv s'.p s'.cEx s'.bEx) (hrc : RcInv s'.rc s'.aEx s'.bEx)
     (hne : e.name ≠ []) (hre : [] ∉ e.roles) (hce : ∀ c, e.code = some c → c ≠ []) (hid : id ≠ [])
-    (huX : UI (fun e => e.colour.getD []) s'.a s'.uColour) : InvCore s' := by
+    (huX : UI (fun e => e.colour.getD []) s'.a s'.uColour) (hpe : s'.pe = s.pe) (hmt : s'.mt = s.mt) : InvCore s' := by
   have hbe : s'.bEx = s.bEx := bEx_congr hb
+  have hamono : ∀ j, s.aEx j = true → s'.aEx j = true := by
+    intro j hj; simp only [State.aEx, ha, Map.lookup_insert]; split
+    · simp
+    · exact hj
   refine ⟨huN, huA, huC, hsr, hnek, hbr, hthg, ?_, ?_, hg, hp, hrc, ?_, ?_, ?_, ?_,
-    by rw [hb]; exact hi.idB, fun _ _ _ => hhasA, ?_, huX⟩
+    by rw [hb]; exact hi.idB, fun _ _ _ => hhasA, ?_, huX, by rw [hpe]; exact hi.pe.mono hamono,
+    by rw [hmt]; exact hi.mt.mono hamono hamono⟩
   · intro j e'; rw [ha, hbe]; simp only [Map.lookup_insert]; split
     · intro h; cases h; exact hown
     · exact hi.ownerExists j e'
@@ -603,15 +622,15 @@ theorem inv_createA {s s' : State} {id : Id} {v : ValsA} (hi : Inv s) (h : creat
         simp only [Map.lookup_insert, if_true, evName, evAlias, evRoles, evOwner, evDep, evBoss, Captured.none] at hun hua hsr hfk hdep hboss
         obtain ⟨k1, k2, k3, k4⟩ := fkAfter_create_ok (e := ⟨v.name, v.alias, setOf v.roles, v.owner, v.dep, v.boss, none, none⟩)
           (ents := s.a) (by exact hi.br) (by exact hi.thgDom) hfresh hfk
-        obtain ⟨g1, g2, g3, g4, g5, g6, g7, g8, g9, g10, g11, g12, g13⟩ := k2.fields
-        simp only at g1 g2 g3 g4 g5 g6 g7 g8 g9 g10 g11 g12 g13
+        obtain ⟨g1, g2, g3, g4, g5, g6, g7, g8, g9, g10, g11, g12, g13, g14, g15⟩ := k2.fields
+        simp only at g1 g2 g3 g4 g5 g6 g7 g8 g9 g10 g11 g12 g13 g14 g15
         have hsr' := C03.setAfter_ok (r := (·.roles)) (e := (⟨v.name, v.alias, setOf v.roles, v.owner, v.dep, v.boss, none, none⟩ : EntA))
           hi.sRoles hi.nek (oldRoles := []) (id := id) (by intro x; simp [hfresh]) hsr
         have hae : s'.aEx = ({ s with hasA := true, a := s.a.insert id ⟨v.name, v.alias, setOf v.roles, v.owner, v.dep, v.boss, none, none⟩ } : State).aEx :=
           aEx_congr g3
         have hbe : s'.bEx = s.bEx := bEx_congr g4
         refine ⟨core_assemble (e := ⟨v.name, v.alias, setOf v.roles, v.owner, v.dep, v.boss, none, none⟩) hi.toInvCore g3 g4 g2 g1
-          ?_ ?_ ?_ ?_ ?_ ?_ k3 ?_ ?_ ?_ ?_ ?_ ?_ ?_ ?_ hid ?_, ?_, ?_⟩
+          ?_ ?_ ?_ ?_ ?_ ?_ k3 ?_ ?_ ?_ ?_ ?_ ?_ ?_ ?_ hid ?_ g14 g15, ?_, ?_⟩
         · rw [g3, g8]; exact C03.uniqueAfter_create_ok hi.uName hfresh hun
         · rw [g3, g9]; exact C03.uniqueAfter_create_ok hi.uAlias hfresh hua
         · rw [g3, g10]; exact UI_insert_fresh_empty hi.uCode hfresh rfl
@@ -669,14 +688,14 @@ theorem inv_updateA {s s' : State} {id : Id} {v : ValsA} {chk : Option ChkA} (hi
       simp only [Map.lookup_insert, if_true, captureA, hold, evName, evAlias, evRoles, evOwner, evDep, evBoss] at hun hua hsr hfk hdep hboss
       obtain ⟨k1, k2, k3, k4⟩ := fkAfter_update_ok (e := persistFields old v chk) (ents := s.a) (by exact hi.br)
         (by exact hi.thgDom) hold (by exact hi.ownerExists id old hold) hfk
-      obtain ⟨g1, g2, g3, g4, g5, g6, g7, g8, g9, g10, g11, g12, g13⟩ := k2.fields
-      simp only at g1 g2 g3 g4 g5 g6 g7 g8 g9 g10 g11 g12 g13
+      obtain ⟨g1, g2, g3, g4, g5, g6, g7, g8, g9, g10, g11, g12, g13, g14, g15⟩ := k2.fields
+      simp only at g1 g2 g3 g4 g5 g6 g7 g8 g9 g10 g11 g12 g13 g14 g15
       have hsr' := C03.setAfter_ok (r := (·.roles)) (e := persistFields old v chk)
         hi.sRoles hi.nek (oldRoles := old.roles) (id := id) (by intro x; simp [hold]) hsr
       have hae : s'.aEx = ({ s with a := s.a.insert id (persistFields old v chk) } : State).aEx := aEx_congr g3
       have hbe : s'.bEx = s.bEx := bEx_congr g4
       refine ⟨core_assemble (e := persistFields old v chk) hi.toInvCore g3 g4 g2 (by rw [g1]; exact hi.hasA id old hold)
-        ?_ ?_ ?_ ?_ ?_ ?_ k3 ?_ ?_ ?_ ?_ ?_ ?_ ?_ ?_ hid ?_, ?_, ?_⟩
+        ?_ ?_ ?_ ?_ ?_ ?_ k3 ?_ ?_ ?_ ?_ ?_ ?_ ?_ ?_ hid ?_ g14 g15, ?_, ?_⟩
       · rw [g3, g8]; exact C03.uniqueAfter_update_ok (f := fun (e : EntA) => e.name) hi.uName hold hun
       · rw [g3, g9]; exact C03.uniqueAfter_update_ok (f := fun (e : EntA) => e.alias.getD []) hi.uAlias hold hua
       · rw [g3, g10]; exact UI_insert_same hi.uCode hold rfl
@@ -749,8 +768,8 @@ theorem inv_createA1 {s s' : State} {id : Id} {v : ValsA} {code : Bytes} {pals :
                 simp only [hold, Option.isSome_none, Bool.false_eq_true, if_false, Captured.none] at hun hua hsr hfk hdep hboss
                 obtain ⟨k1, k2, k3, k4⟩ := fkAfter_create_ok (e := ⟨v.name, v.alias, setOf v.roles, v.owner, v.dep, v.boss, some code, col⟩)
                   (ents := s.a) (by exact hi.br) (by exact hi.thgDom) hold hfk
-                obtain ⟨g1, g2, g3, g4, g5, g6, g7, g8, g9, g10, g11, g12, g13⟩ := k2.fields
-                simp only at g1 g2 g3 g4 g5 g6 g7 g8 g9 g10 g11 g12 g13
+                obtain ⟨g1, g2, g3, g4, g5, g6, g7, g8, g9, g10, g11, g12, g13, g14, g15⟩ := k2.fields
+                simp only at g1 g2 g3 g4 g5 g6 g7 g8 g9 g10 g11 g12 g13 g14 g15
                 rw [g10] at huc
                 have hsr' := C03.setAfter_ok (r := (·.roles)) (e := (⟨v.name, v.alias, setOf v.roles, v.owner, v.dep, v.boss, some code, col⟩ : EntA))
                   hi.sRoles hi.nek (oldRoles := []) (id := id) (by intro x; simp [hold]) hsr
@@ -760,7 +779,7 @@ theorem inv_createA1 {s s' : State} {id : Id} {v : ValsA} {code : Bytes} {pals :
                   cEx_congr g3
                 have hbe : s3.bEx = s.bEx := bEx_congr g4
                 refine ⟨core_assemble (s' := { s3 with uCode := uc }) (e := ⟨v.name, v.alias, setOf v.roles, v.owner, v.dep, v.boss, some code, col⟩)
-                  hi.toInvCore g3 g4 g2 g1 ?_ ?_ ?_ ?_ ?_ ?_ k3 ?_ ?_ ?_ ?_ ?_ ?_ ?_ ?_ hid ?_, ?_, ?_⟩
+                  hi.toInvCore g3 g4 g2 g1 ?_ ?_ ?_ ?_ ?_ ?_ k3 ?_ ?_ ?_ ?_ ?_ ?_ ?_ ?_ hid ?_ g14 g15, ?_, ?_⟩
                 · show UI _ s3.a s3.uName; rw [g3, g8]; exact C03.uniqueAfter_create_ok hi.uName hold hun
                 · show UI _ s3.a s3.uAlias; rw [g3, g9]; exact C03.uniqueAfter_create_ok hi.uAlias hold hua
                 · show UI _ s3.a uc; rw [g3]
@@ -795,8 +814,8 @@ theorem inv_createA1 {s s' : State} {id : Id} {v : ValsA} {code : Bytes} {pals :
                 simp only [hold, Option.isSome_some, if_true, captureA, evName, evAlias, evRoles, evOwner, evDep, evBoss] at hun hua hsr hfk hdep hboss
                 obtain ⟨k1, k2, k3, k4⟩ := fkAfter_true_ok (e := ⟨v.name, v.alias, setOf v.roles, v.owner, v.dep, v.boss, some code, col⟩)
                   (ents := s.a) (by exact hi.br) (by exact hi.thgDom) hold hfk
-                obtain ⟨g1, g2, g3, g4, g5, g6, g7, g8, g9, g10, g11, g12, g13⟩ := k2.fields
-                simp only at g1 g2 g3 g4 g5 g6 g7 g8 g9 g10 g11 g12 g13
+                obtain ⟨g1, g2, g3, g4, g5, g6, g7, g8, g9, g10, g11, g12, g13, g14, g15⟩ := k2.fields
+                simp only at g1 g2 g3 g4 g5 g6 g7 g8 g9 g10 g11 g12 g13 g14 g15
                 rw [g10] at huc
                 have huc' : uniqueAfter true false ((fun (e : EntA) => e.code.getD []) old)
                     ((fun (e : EntA) => e.code.getD []) ⟨v.name, v.alias, setOf v.roles, v.owner, v.dep, v.boss, some code, col⟩) id s.uCode = .ok uc := by
@@ -809,7 +828,7 @@ theorem inv_createA1 {s s' : State} {id : Id} {v : ValsA} {code : Bytes} {pals :
                   cEx_congr g3
                 have hbe : s3.bEx = s.bEx := bEx_congr g4
                 refine ⟨core_assemble (s' := { s3 with uCode := uc }) (e := ⟨v.name, v.alias, setOf v.roles, v.owner, v.dep, v.boss, some code, col⟩)
-                  hi.toInvCore g3 g4 g2 g1 ?_ ?_ ?_ ?_ ?_ ?_ k3 ?_ ?_ ?_ ?_ ?_ ?_ ?_ ?_ hid ?_, ?_, ?_⟩
+                  hi.toInvCore g3 g4 g2 g1 ?_ ?_ ?_ ?_ ?_ ?_ k3 ?_ ?_ ?_ ?_ ?_ ?_ ?_ ?_ hid ?_ g14 g15, ?_, ?_⟩
                 · show UI _ s3.a s3.uName; rw [g3, g8]
                   exact C03.uniqueAfter_true_ok (f := fun (e : EntA) => e.name) hi.uName hold hun
                 · show UI _ s3.a s3.uAlias; rw [g3, g9]
@@ -877,8 +896,8 @@ theorem inv_createA2 {s s' : State} {id : Id} {v : ValsA} {colour : Bytes} (hi :
               simp only [hold, Option.isSome_none, Bool.false_eq_true, if_false, Captured.none] at hun hua hsr hfk hdep hboss
               obtain ⟨k1, k2, k3, k4⟩ := fkAfter_create_ok (e := ⟨v.name, v.alias, setOf v.roles, v.owner, v.dep, v.boss, cd, some colour⟩)
                 (ents := s.a) (by exact hi.br) (by exact hi.thgDom) hold hfk
-              obtain ⟨g1, g2, g3, g4, g5, g6, g7, g8, g9, g10, g11, g12, g13⟩ := k2.fields
-              simp only at g1 g2 g3 g4 g5 g6 g7 g8 g9 g10 g11 g12 g13
+              obtain ⟨g1, g2, g3, g4, g5, g6, g7, g8, g9, g10, g11, g12, g13, g14, g15⟩ := k2.fields
+              simp only at g1 g2 g3 g4 g5 g6 g7 g8 g9 g10 g11 g12 g13 g14 g15
               rw [g13] at huc
               have hsr' := C03.setAfter_ok (r := (·.roles)) (e := (⟨v.name, v.alias, setOf v.roles, v.owner, v.dep, v.boss, cd, some colour⟩ : EntA))
                 hi.sRoles hi.nek (oldRoles := []) (id := id) (by intro x; simp [hold]) hsr
@@ -886,7 +905,7 @@ theorem inv_createA2 {s s' : State} {id : Id} {v : ValsA} {colour : Bytes} (hi :
               have hce : s3.cEx = ({ s with hasA := true, a := s.a.insert id ⟨v.name, v.alias, setOf v.roles, v.owner, v.dep, v.boss, cd, some colour⟩ } : State).cEx := cEx_congr g3
               have hbe : s3.bEx = s.bEx := bEx_congr g4
               refine ⟨core_assemble (s' := { s3 with uColour := uc }) (e := ⟨v.name, v.alias, setOf v.roles, v.owner, v.dep, v.boss, cd, some colour⟩)
-                hi.toInvCore g3 g4 g2 g1 ?_ ?_ ?_ ?_ ?_ ?_ k3 ?_ ?_ ?_ ?_ ?_ ?_ ?_ ?_ hid ?_, ?_, ?_⟩
+                hi.toInvCore g3 g4 g2 g1 ?_ ?_ ?_ ?_ ?_ ?_ k3 ?_ ?_ ?_ ?_ ?_ ?_ ?_ ?_ hid ?_ g14 g15, ?_, ?_⟩
               · show UI _ s3.a s3.uName; rw [g3, g8]; exact C03.uniqueAfter_create_ok hi.uName hold hun
               · show UI _ s3.a s3.uAlias; rw [g3, g9]; exact C03.uniqueAfter_create_ok hi.uAlias hold hua
               · show UI _ s3.a s3.uCode; rw [g3, g10]; exact UI_insert_fresh_empty hi.uCode hold (by simp [← hcd, hold])
@@ -922,8 +941,8 @@ theorem inv_createA2 {s s' : State} {id : Id} {v : ValsA} {colour : Bytes} (hi :
               simp only [hold, Option.isSome_some, if_true, captureA, evName, evAlias, evRoles, evOwner, evDep, evBoss] at hun hua hsr hfk hdep hboss
               obtain ⟨k1, k2, k3, k4⟩ := fkAfter_true_ok (e := ⟨v.name, v.alias, setOf v.roles, v.owner, v.dep, v.boss, cd, some colour⟩)
                 (ents := s.a) (by exact hi.br) (by exact hi.thgDom) hold hfk
-              obtain ⟨g1, g2, g3, g4, g5, g6, g7, g8, g9, g10, g11, g12, g13⟩ := k2.fields
-              simp only at g1 g2 g3 g4 g5 g6 g7 g8 g9 g10 g11 g12 g13
+              obtain ⟨g1, g2, g3, g4, g5, g6, g7, g8, g9, g10, g11, g12, g13, g14, g15⟩ := k2.fields
+              simp only at g1 g2 g3 g4 g5 g6 g7 g8 g9 g10 g11 g12 g13 g14 g15
               rw [g13] at huc
               have huc' : uniqueAfter true true ((fun (e : EntA) => e.colour.getD []) old)
                   ((fun (e : EntA) => e.colour.getD []) ⟨v.name, v.alias, setOf v.roles, v.owner, v.dep, v.boss, cd, some colour⟩) id s.uColour = .ok uc := by
@@ -934,7 +953,7 @@ theorem inv_createA2 {s s' : State} {id : Id} {v : ValsA} {colour : Bytes} (hi :
               have hce : s3.cEx = ({ s with hasA := true, a := s.a.insert id ⟨v.name, v.alias, setOf v.roles, v.owner, v.dep, v.boss, cd, some colour⟩ } : State).cEx := cEx_congr g3
               have hbe : s3.bEx = s.bEx := bEx_congr g4
               refine ⟨core_assemble (s' := { s3 with uColour := uc }) (e := ⟨v.name, v.alias, setOf v.roles, v.owner, v.dep, v.boss, cd, some colour⟩)
-                hi.toInvCore g3 g4 g2 g1 ?_ ?_ ?_ ?_ ?_ ?_ k3 ?_ ?_ ?_ ?_ ?_ ?_ ?_ ?_ hid ?_, ?_, ?_⟩
+                hi.toInvCore g3 g4 g2 g1 ?_ ?_ ?_ ?_ ?_ ?_ k3 ?_ ?_ ?_ ?_ ?_ ?_ ?_ ?_ hid ?_ g14 g15, ?_, ?_⟩
               · show UI _ s3.a s3.uName; rw [g3, g8]
                 exact C03.uniqueAfter_true_ok (f := fun (e : EntA) => e.name) hi.uName hold hun
               · show UI _ s3.a s3.uAlias; rw [g3, g9]
@@ -1013,8 +1032,8 @@ theorem inv_updateA2 {s s' : State} {id : Id} {v : ValsA} {colour : Bytes} {chk 
       simp only [Map.lookup_insert, if_true, captureA, hold, evName, evAlias, evRoles, evOwner, evDep, evBoss] at hun hua hsr hfk hdep hboss
       obtain ⟨k1, k2, k3, k4⟩ := fkAfter_update_ok (e := { persistFields old v chk with colour := some newc }) (ents := s.a) (by exact hi.br)
         (by exact hi.thgDom) hold (by exact hi.ownerExists id old hold) hfk
-      obtain ⟨g1, g2, g3, g4, g5, g6, g7, g8, g9, g10, g11, g12, g13⟩ := k2.fields
-      simp only at g1 g2 g3 g4 g5 g6 g7 g8 g9 g10 g11 g12 g13
+      obtain ⟨g1, g2, g3, g4, g5, g6, g7, g8, g9, g10, g11, g12, g13, g14, g15⟩ := k2.fields
+      simp only at g1 g2 g3 g4 g5 g6 g7 g8 g9 g10 g11 g12 g13 g14 g15
       rw [g13] at huc
       have huc' : uniqueAfter false true ((fun (e : EntA) => e.colour.getD []) old)
           ((fun (e : EntA) => e.colour.getD []) { persistFields old v chk with colour := some newc }) id s.uColour = .ok uc := by
@@ -1025,7 +1044,7 @@ theorem inv_updateA2 {s s' : State} {id : Id} {v : ValsA} {colour : Bytes} {chk 
       have hbe : s3.bEx = s.bEx := bEx_congr g4
       refine ⟨core_assemble (s' := { s3 with uColour := uc }) (e := { persistFields old v chk with colour := some newc })
         hi.toInvCore g3 g4 g2 (by show s3.hasA = true; rw [g1]; exact hi.hasA id old hold)
-        ?_ ?_ ?_ ?_ ?_ ?_ k3 ?_ ?_ ?_ ?_ ?_ ?_ ?_ ?_ hid ?_, ?_, ?_⟩
+        ?_ ?_ ?_ ?_ ?_ ?_ k3 ?_ ?_ ?_ ?_ ?_ ?_ ?_ ?_ hid ?_ g14 g15, ?_, ?_⟩
       · show UI _ s3.a s3.uName; rw [g3, g8]; exact C03.uniqueAfter_update_ok (f := fun (e : EntA) => e.name) hi.uName hold hun
       · show UI _ s3.a s3.uAlias; rw [g3, g9]
         exact C03.uniqueAfter_update_ok (f := fun (e : EntA) => e.alias.getD []) hi.uAlias hold hua
@@ -1067,7 +1086,8 @@ theorem bEx_insert_mono {s : State} {id : Id} {e : EntB} {s' : State} (hb : s'.b
 theorem core_of_b_insert {s s' : State} {id : Id} {e : EntB} (hi : InvCore s) (hid : id ≠ [])
     (hb : s'.b = s.b.insert id e) (ha : s'.a = s.a) (hg : s'.g = s.g) (hp : s'.p = s.p) (hrc : s'.rc = s.rc)
     (ht : s'.thg = s.thg) (h1 : s'.uName = s.uName) (h2 : s'.uAlias = s.uAlias) (h3 : s'.uCode = s.uCode)
-    (h4 : s'.sRoles = s.sRoles) (h5 : s'.hasA = s.hasA) (h6 : s'.hasB = true) (h7 : s'.uColour = s.uColour) : InvCore s' := by
+    (h4 : s'.sRoles = s.sRoles) (h5 : s'.hasA = s.hasA) (h6 : s'.hasB = true) (h7 : s'.uColour = s.uColour)
+    (h8 : s'.pe = s.pe) (h9 : s'.mt = s.mt) : InvCore s' := by
   have hae : s'.aEx = s.aEx := aEx_congr ha
   have hce : s'.cEx = s.cEx := cEx_congr ha
   have hmono := bEx_insert_mono hb
@@ -1076,7 +1096,8 @@ theorem core_of_b_insert {s s' : State} {id : Id} {e : EntB} (hi : InvCore s) (h
     by rw [hg, hae]; exact hi.g.mono (fun _ h => h) hmono, by rw [hp, hce]; exact hi.p.mono (fun _ h => h) hmono,
     by rw [hrc, hae]; exact hi.rc.mono (fun _ h => h) hmono,
     by rw [ha]; exact hi.namesNonEmpty, by rw [ha]; exact hi.rolesNonEmpty, by rw [ha]; exact hi.codeNonEmpty,
-    by rw [ha]; exact hi.idA, ?_, by rw [ha, h5]; exact hi.hasA, fun _ _ _ => h6, by rw [ha, h7]; exact hi.uColour⟩
+    by rw [ha]; exact hi.idA, ?_, by rw [ha, h5]; exact hi.hasA, fun _ _ _ => h6, by rw [ha, h7]; exact hi.uColour,
+    by rw [h8, hae]; exact hi.pe, by rw [h9, hae]; exact hi.mt⟩
   · intro b l; rw [ht]; intro hl; exact hmono b (hi.thgDom b l hl)
   · intro j e'; rw [ha]; intro hj hne; exact hmono _ (hi.ownerExists j e' hj hne)
   · intro j e'; rw [ha]; intro hj hne; exact hmono _ (hi.depExists j e' hj hne)
@@ -1099,7 +1120,7 @@ theorem inv_createB {s s' : State} {id : Id} {label : Option Bytes} (hi : Inv s)
       · cases h
       · next ul hul =>
         cases h
-        exact ⟨core_of_b_insert (e := ⟨label⟩) hi.toInvCore hid rfl rfl rfl rfl rfl rfl rfl rfl rfl rfl rfl rfl rfl,
+        exact ⟨core_of_b_insert (e := ⟨label⟩) hi.toInvCore hid rfl rfl rfl rfl rfl rfl rfl rfl rfl rfl rfl rfl rfl rfl rfl,
           C03.uniqueAfter_create_ok (f := fun (e : EntB) => e.label.getD []) (e := ⟨label⟩) hi.uLabel hfresh hul,
           bossOK_congr hi.boss rfl⟩
 
@@ -1117,7 +1138,7 @@ theorem inv_updateB {s s' : State} {id : Id} {label : Option Bytes} {chk : Optio
       · cases h
       · next ul hul =>
         cases h
-        exact ⟨core_of_b_insert hi.toInvCore hid rfl rfl rfl rfl rfl rfl rfl rfl rfl rfl rfl (hi.hasB id old hold) rfl,
+        exact ⟨core_of_b_insert hi.toInvCore hid rfl rfl rfl rfl rfl rfl rfl rfl rfl rfl rfl (hi.hasB id old hold) rfl rfl rfl,
           C03.uniqueAfter_update_ok (f := fun (e : EntB) => e.label.getD []) hi.uLabel hold hul,
           bossOK_congr hi.boss rfl⟩
 
@@ -1131,6 +1152,27 @@ theorem inv_rcOp {s s' : State} {f : RcPair → Except Err RcPair} (hi : Inv s)
     exact ⟨{ hi.toInvCore with rc := hf r' hr }, hi.uLabel, bossOK_congr hi.boss rfl⟩
 
 
+
+theorem inv_peersOp {s s' : State} {f : SelfMap → Except Err SelfMap} (hi : Inv s)
+    (hf : ∀ m', f s.pe = .ok m' → SelfInv m' s.aEx) (h : peersOp s f = .ok s') : Inv s' := by
+  simp only [peersOp, bind, Except.bind, pure, Except.pure] at h
+  split at h
+  · cases h
+  · next m' hm =>
+    cases h
+    exact ⟨{ hi.toInvCore with pe := hf m' hm }, hi.uLabel, bossOK_congr hi.boss rfl⟩
+
+theorem inv_setMentors {s s' : State} {id : Id} {ks : List Id} (hi : Inv s) (h : setMentors s id ks = .ok s') : Inv s' := by
+  unfold setMentors at h
+  cases ha : s.aEx id with
+  | false => simp [ha] at h
+  | true =>
+    simp only [ha, Bool.not_true, Bool.false_eq_true, if_false, bind, Except.bind, pure, Except.pure] at h
+    split at h
+    · cases h
+    · next m' hm =>
+      cases h
+      exact ⟨{ hi.toInvCore with mt := LinkPair.setLinks_pres hi.mt ha hm }, hi.uLabel, bossOK_congr hi.boss rfl⟩
 
 /-! ### deleting a thing -/
 
@@ -1157,11 +1199,14 @@ theorem deleteA0Tail_stages {s s1 s' : State} {id : Id} {e : EntA} (hi : InvCore
     (ha : s1.a = s.a) (hx : IdxInv s.a s1 ∨ IdxInv (s.a.erase id) s1) (h : deleteA0Tail s1 e id = .ok s') :
     ∃ s2, IdxInv (s.a.erase id) s2 ∧ s2.hasA = s1.hasA ∧ s2.hasB = s1.hasB ∧ s2.a = s1.a ∧ s2.b = s1.b ∧ s2.g = s1.g ∧
       s2.p = s1.p ∧ s2.rc = s1.rc ∧ s2.uLabel = s1.uLabel ∧ s2.uCode = s1.uCode ∧
-      s2.uColour = uniqueBeforeDelete (e.colour.getD []) s1.uColour ∧
+      s2.uColour = uniqueBeforeDelete (e.colour.getD []) s1.uColour ∧ s2.pe = s1.pe ∧ s2.mt = s1.mt ∧
       s' = { s2 with a := s2.a.erase id,
                      g := { fwd := (s2.g.cleanFwd s2.bEx id).fwd.erase id, bwd := (s2.g.cleanFwd s2.bEx id).bwd },
                      p := { fwd := s2.p.fwd.erase id, bwd := s2.p.bwd },
-                     rc := { fwd := (s2.rc.cleanFwd s2.bEx id).fwd.erase id, bwd := (s2.rc.cleanFwd s2.bEx id).bwd } } := by
+                     rc := { fwd := (s2.rc.cleanFwd s2.bEx id).fwd.erase id, bwd := (s2.rc.cleanFwd s2.bEx id).bwd },
+                     pe := (selfClean s2.pe s2.aEx id).erase id,
+                     mt := { fwd := ((s2.mt.cleanFwd s2.aEx id).cleanBwd s2.aEx id).fwd.erase id,
+                             bwd := ((s2.mt.cleanFwd s2.aEx id).cleanBwd s2.aEx id).bwd.erase id } } := by
   simp only [deleteA0Tail, bind, Except.bind, pure, Except.pure] at h
   split at h
   · cases h
@@ -1171,15 +1216,15 @@ theorem deleteA0Tail_stages {s s1 s' : State} {id : Id} {e : EntA} (hi : InvCore
     · next s2 hs2 =>
       cases h
       obtain ⟨i1, i2⟩ := strip_round hi hold ha hx htx
-      obtain ⟨f1, f2, f3, f4, f5, f6, f7, f8, f9, f10⟩ := i2.fields
+      obtain ⟨f1, f2, f3, f4, f5, f6, f7, f8, f9, f10, f11, f12⟩ := i2.fields
       have i1' : IdxInv (s.a.erase id) ({ tx with uColour := uniqueBeforeDelete (evColour (some e)) tx.uColour } : State) :=
         ⟨i1.uName, i1.uAlias, i1.sRoles, i1.nek, i1.br, i1.thgDom⟩
       obtain ⟨j1, j2⟩ := strip_round (s1 := { tx with uColour := uniqueBeforeDelete (evColour (some e)) tx.uColour })
         hi hold (f3.trans ha) (Or.inr i1') hs2
-      obtain ⟨g1, g2, g3, g4, g5, g6, g7, g8, g9, g10⟩ := j2.fields
-      simp only at g1 g2 g3 g4 g5 g6 g7 g8 g9 g10
+      obtain ⟨g1, g2, g3, g4, g5, g6, g7, g8, g9, g10, g11, g12⟩ := j2.fields
+      simp only at g1 g2 g3 g4 g5 g6 g7 g8 g9 g10 g11 g12
       exact ⟨s2, j1, g1.trans f1, g2.trans f2, g3.trans f3, g4.trans f4, g5.trans f5, g6.trans f6, g7.trans f7,
-        g9.trans f9, g8.trans f8, by rw [g10, f10]; rfl, rfl⟩
+        g9.trans f9, g8.trans f8, by rw [g10, f10]; rfl, g11.trans f11, g12.trans f12, rfl⟩
 
 /-- what `deleteA0` computes, stage by stage -/
 theorem deleteA0_stages {s s' : State} {id : Id} (hi : InvCore s) (h : deleteA0 s id = .ok s') :
@@ -1187,10 +1232,14 @@ theorem deleteA0_stages {s s' : State} {id : Id} (hi : InvCore s) (h : deleteA0 
       s2.hasA = s.hasA ∧ s2.hasB = s.hasB ∧ s2.a = s.a ∧ s2.b = s.b ∧ s2.g = s.g ∧ s2.rc = s.rc ∧
       s2.uLabel = s.uLabel ∧ s2.uCode = uniqueBeforeDelete (e.code.getD []) s.uCode ∧
       s2.p = s.p.cleanFwd s.bEx id ∧ s2.uColour = uniqueBeforeDelete (e.colour.getD []) s.uColour ∧
+      s2.pe = s.pe ∧ s2.mt = s.mt ∧
       s' = { s2 with a := s2.a.erase id,
                      g := { fwd := (s2.g.cleanFwd s2.bEx id).fwd.erase id, bwd := (s2.g.cleanFwd s2.bEx id).bwd },
                      p := { fwd := s2.p.fwd.erase id, bwd := s2.p.bwd },
-                     rc := { fwd := (s2.rc.cleanFwd s2.bEx id).fwd.erase id, bwd := (s2.rc.cleanFwd s2.bEx id).bwd } } := by
+                     rc := { fwd := (s2.rc.cleanFwd s2.bEx id).fwd.erase id, bwd := (s2.rc.cleanFwd s2.bEx id).bwd },
+                     pe := (selfClean s2.pe s2.aEx id).erase id,
+                     mt := { fwd := ((s2.mt.cleanFwd s2.aEx id).cleanBwd s2.aEx id).fwd.erase id,
+                             bwd := ((s2.mt.cleanFwd s2.aEx id).cleanBwd s2.aEx id).bwd.erase id } } := by
   unfold deleteA0 at h
   split at h
   · cases h
@@ -1203,13 +1252,13 @@ theorem deleteA0_stages {s s' : State} {id : Id} (hi : InvCore s) (h : deleteA0 
       cases hc : e.code with
       | none =>
         simp only [hc, Option.isSome_none, Bool.false_eq_true, if_false] at h
-        obtain ⟨s2, ix, t1, t2, t3, t4, t5, t6, t7, t8, t9, t10, rfl⟩ := deleteA0Tail_stages hi hold rfl (Or.inl hi.idx) h
+        obtain ⟨s2, ix, t1, t2, t3, t4, t5, t6, t7, t8, t9, t10, t11, t12, rfl⟩ := deleteA0Tail_stages hi hold rfl (Or.inl hi.idx) h
         have hpn : s.p.fwd.lookup id = none := by
           cases hl : s.p.fwd.lookup id with
           | none => rfl
           | some l => have := hi.p.fwdDom id l hl; simp [State.cEx, hold, hc] at this
         exact ⟨e, s2, hold, ix, t1, t2, t3, t4, t5, t7, t8,
-          by rw [t9]; simp [uniqueBeforeDelete, hc], by rw [t6, LinkPair.cleanFwd_of_none hpn], t10, rfl⟩
+          by rw [t9]; simp [uniqueBeforeDelete, hc], by rw [t6, LinkPair.cleanFwd_of_none hpn], t10, t11, t12, rfl⟩
       | some c =>
         simp only [hc, Option.isSome_some, if_true] at h
         split at h
@@ -1220,17 +1269,17 @@ theorem deleteA0_stages {s s' : State} {id : Id} (hi : InvCore s) (h : deleteA0 
           · next t ht =>
             cases hs1
             obtain ⟨i1, i2⟩ := beforeDeleteA_first hi.idx hold ht
-            obtain ⟨f1, f2, f3, f4, f5, f6, f7, f8, f9, f10⟩ := i2.fields
+            obtain ⟨f1, f2, f3, f4, f5, f6, f7, f8, f9, f10, f11, f12⟩ := i2.fields
             have i1' : IdxInv (s.a.erase id)
                 ({ t with uCode := uniqueBeforeDelete (evCode (some e)) t.uCode, p := t.p.cleanFwd t.bEx id } : State) :=
               ⟨i1.uName, i1.uAlias, i1.sRoles, i1.nek, i1.br, i1.thgDom⟩
-            obtain ⟨s2, ix, t1, t2, t3, t4, t5, t6, t7, t8, t9, t10, rfl⟩ :=
+            obtain ⟨s2, ix, t1, t2, t3, t4, t5, t6, t7, t8, t9, t10, t11, t12, rfl⟩ :=
               deleteA0Tail_stages (s1 := { t with uCode := uniqueBeforeDelete (evCode (some e)) t.uCode, p := t.p.cleanFwd t.bEx id })
                 hi hold f3 (Or.inr i1') h
-            simp only at t1 t2 t3 t4 t5 t6 t7 t8 t9 t10
+            simp only at t1 t2 t3 t4 t5 t6 t7 t8 t9 t10 t11 t12
             have hbe : t.bEx = s.bEx := bEx_congr f4
             exact ⟨e, s2, hold, ix, t1.trans f1, t2.trans f2, t3.trans f3, t4.trans f4, t5.trans f5, t7.trans f7,
-              t8.trans f9, by rw [t9, f8]; simp [evCode, hc], by rw [t6, f6, hbe], by rw [t10, f10], rfl⟩
+              t8.trans f9, by rw [t9, f8]; simp [evCode, hc], by rw [t6, f6, hbe], by rw [t10, f10], t11.trans f11, t12.trans f12, rfl⟩
 
 theorem aEx_erase {s s' : State} {id : Id} (ha : s'.a = s.a.erase id) :
     ∀ j, s.aEx j = true → j ≠ id → s'.aEx j = true := by
@@ -1242,9 +1291,9 @@ theorem cEx_erase {s s' : State} {id : Id} (ha : s'.a = s.a.erase id) :
 
 theorem core_deleteA0 {s s' : State} {id : Id} (hi : InvCore s) (h : deleteA0 s id = .ok s') :
     InvCore s' ∧ s'.a = s.a.erase id ∧ s'.b = s.b ∧ s'.uLabel = s.uLabel ∧ s'.hasB = s.hasB ∧ s'.hasA = s.hasA := by
-  obtain ⟨hid, e, s2, hold, ix, q1, q2, q3, q4, q5, q6, q7, q8, q9, q10, rfl⟩ := deleteA0_stages hi h
+  obtain ⟨hid, e, s2, hold, ix, q1, q2, q3, q4, q5, q6, q7, q8, q9, q10, q11, q12, rfl⟩ := deleteA0_stages hi h
   have hbe : s2.bEx = s.bEx := bEx_congr q4
-  refine ⟨⟨?_, ?_, ?_, ?_, ?_, ?_, ?_, ?_, ?_, ?_, ?_, ?_, ?_, ?_, ?_, ?_, ?_, ?_, ?_, ?_⟩, by simp [q3], q4, q7, q2, q1⟩
+  refine ⟨⟨?_, ?_, ?_, ?_, ?_, ?_, ?_, ?_, ?_, ?_, ?_, ?_, ?_, ?_, ?_, ?_, ?_, ?_, ?_, ?_, ?_, ?_⟩, by simp [q3], q4, q7, q2, q1⟩
   · show UI _ (s2.a.erase id) s2.uName; rw [q3]; exact ix.uName
   · show UI _ (s2.a.erase id) s2.uAlias; rw [q3]; exact ix.uAlias
   · show UI _ (s2.a.erase id) s2.uCode; rw [q3, q8]
@@ -1292,6 +1341,14 @@ theorem core_deleteA0 {s s' : State} {id : Id} (hi : InvCore s) (h : deleteA0 s 
   · intro j e'; show s2.b.lookup j = some e' → s2.hasB = true; rw [q4, q2]; exact hi.hasB j e'
   · show UI _ (s2.a.erase id) s2.uColour; rw [q3, q10]
     exact C03.uniqueBeforeDelete_ok (f := fun (e : EntA) => e.colour.getD []) hi.uColour hold
+  · have hae : s2.aEx = s.aEx := aEx_congr q3
+    have := selfClean_drop_inv (ex' := ({ s2 with a := s2.a.erase id } : State).aEx) (id := id) hi.pe
+      (aEx_erase (by simp [q3]))
+    rw [q11, hae]; exact this
+  · have hae : s2.aEx = s.aEx := aEx_congr q3
+    have := LinkPair.cleanBoth_drop_inv (ex' := ({ s2 with a := s2.a.erase id } : State).aEx) (id := id) hi.mt
+      (aEx_erase (by simp [q3]))
+    rw [q12, hae]; exact this
 
 
 
@@ -1422,7 +1479,7 @@ theorem beforeDeleteA_a {s s' : State} {id : Id} (h : beforeDeleteA s id = .ok s
   unfold fkBeforeDelete at hfk
   split at hfk
   · obtain ⟨_, rfl⟩ := backrefDel_eq hfk; rfl
-  · cases hfk; rfl
+  · simp only [pure, Except.pure] at hfk; cases hfk; rfl
 
 /-- a cascade over a state whose remaining referrers of the id are all in progress does nothing -/
 theorem cascadeBoss_skip {del : List Id → State → Id → Except Err State} {busy : List Id} {s0 t : State} {id : Id}
@@ -1551,7 +1608,7 @@ theorem deleteATop_id_ne {s s' : State} {id : Id} (h : deleteATop s id = .ok s')
 
 theorem core_congr_uLabel {s : State} (h : InvCore s) (x : Map Bytes Id) : InvCore { s with uLabel := x } :=
   ⟨h.uName, h.uAlias, h.uCode, h.sRoles, h.nek, h.br, h.thgDom, h.ownerExists, h.depExists, h.g, h.p, h.rc,
-    h.namesNonEmpty, h.rolesNonEmpty, h.codeNonEmpty, h.idA, h.idB, h.hasA, h.hasB, h.uColour⟩
+    h.namesNonEmpty, h.rolesNonEmpty, h.codeNonEmpty, h.idA, h.idB, h.hasA, h.hasB, h.uColour, h.pe, h.mt⟩
 
 theorem deleteAll_spec {ks : List Id} {s s' : State} (hi : InvCore s) (hbo : BossOK [] s) (h : deleteAll ks s = .ok s') :
     InvCore s' ∧ BossOK [] s' ∧ s'.b = s.b ∧ s'.uLabel = s.uLabel ∧ s'.hasB = s.hasB ∧
@@ -1641,7 +1698,7 @@ theorem inv_deleteB {s s' : State} {id : Id} (hi : Inv s) (h : deleteB s id = .o
     rw [hj] at this; cases this
   have hbmono := bEx_erase (s := s1) (s' := { s1 with b := s1.b.erase id }) (id := id) rfl
   refine ⟨⟨c.uName, c.uAlias, c.uCode, c.sRoles, c.nek, ?_, ?_, ?_, ?_, ?_, ?_, ?_, c.namesNonEmpty, c.rolesNonEmpty,
-    c.codeNonEmpty, c.idA, ?_, c.hasA, ?_, c.uColour⟩, ?_, ?_⟩
+    c.codeNonEmpty, c.idA, ?_, c.hasA, ?_, c.uColour, c.pe, c.mt⟩, ?_, ?_⟩
   · intro b j
     have := c.br b j
     show j ∈ ((s1.thg.erase id).lookup b).getD [] ↔ _
@@ -1692,6 +1749,10 @@ theorem inv_stepRaw {s s' : State} {op : Op} (hi : Inv s) (h : stepRaw s op = .o
   | rcInc a b => exact inv_rcOp (f := fun r => r.inc s.aEx s.bEx a b) hi (fun _ hr => RcPair.inc_pres hi.rc hr) h
   | rcDec a b => exact inv_rcOp (f := fun r => r.dec s.aEx s.bEx a b) hi (fun _ hr => RcPair.dec_pres hi.rc hr) h
   | rcSet a b n => exact inv_rcOp (f := fun r => r.set s.aEx s.bEx a b n) hi (fun _ hr => RcPair.set_pres hi.rc hr) h
+  | addPeers id ks => exact inv_peersOp (f := fun m => selfAdd m s.aEx id ks) hi (fun _ hr => selfAdd_pres hi.pe hr) h
+  | removePeers id ks => exact inv_peersOp (f := fun m => selfRemove m s.aEx id ks) hi (fun _ hr => selfRemove_pres hi.pe hr) h
+  | setPeers id ks => exact inv_peersOp (f := fun m => selfSet m s.aEx id ks) hi (fun _ hr => selfSet_pres hi.pe hr) h
+  | setMentors id ks => exact inv_setMentors hi h
 
 theorem inv_applyOps {s s' : State} {ops : List Op} {i : Nat} (hi : Inv s)
     (h : applyOps s ops i = .ok s') : Inv s' := by
